@@ -413,15 +413,7 @@ fn getters_tbl(a: &Args, o: &mut Obs) {
 fn main() {
     let a = Args::parse();
     util::silence_panics();
-    #[cfg(feature = "ledger")]
-    {
-        use vharness::ledger::{set_parity, Parity};
-        match a.str("parity", "mixed").as_str() {
-            "even" => set_parity(Parity::Even),
-            "odd" => set_parity(Parity::Odd),
-            _ => set_parity(Parity::Mixed),
-        }
-    }
+    util::apply_parity(&a);
     let mut o = Obs::new();
     match a.mode.as_str() {
         "readers" => readers(&a, &mut o),
